@@ -577,7 +577,7 @@ func (w *muxWorld) judgeAfterDivergence() muxVerdict {
 // injected send failure) puts a closing frame of that stream on the wire. A Close that lost against the peer's
 // notice ("already closed") rightly sends nothing and is not judged.
 func (w *muxWorld) checkCloseFrames(e string) muxVerdict {
-	if w.wireErr != "" || w.abnormal || w.conc.Singleplex {
+	if w.wireErr != "" || w.abnormal {
 		return muxVerdict{}
 	}
 	for sid, won := range w.closeWon[e] {
